@@ -38,6 +38,7 @@ def check(repo: Repo, R) -> None:
         R.run(caches, repo, R, m)
         R.run(literal_sizes_scaled_whole, repo, R, m)
         R.run(ambiguity_guard_from_two, repo, R, m)
+        R.run(param_keywords_are_fields, repo, R, m)
     R.run(small_pdks, repo, R, prims)
     R.run(registry, repo, R)
     R.run(logic_cells, repo, R)
@@ -329,6 +330,67 @@ def defaults_and_dispatch(repo: Repo, R, m: pt.PdkModel):
                         ok = given = False
         ok, given = ok and n_ret > 0, given and n_ret > 0
         R.check(ok and given, rule, f"pdks/{m.name}::use_defaults", ud.site, f"{m.name}.use_defaults: given sizes are used ({given}); missing ones come from (width, length) of the PDK default for that device ({ok})", why="width and length defaults are exchanged, or given sizes are ignored")
+
+
+def _paramclass_fields(repo: Repo, rel: str, name: str, depth: int = 0) -> Optional[Set[str]]:
+    """The declared parameter names of the parameter class `name` as seen from file `rel` (aliases `A = B` and imports from
+    hdl21's primitives followed); None when it is not a parameter class in reach."""
+    try:
+        sf = repo.file(rel)
+    except Exception:
+        return None
+    node = sf.defs.get(name)
+    if isinstance(node, ast.ClassDef):
+        if not any((dotted(d) or "").split(".")[-1] == "paramclass" for d in node.decorator_list):
+            return None
+        out = set()
+        for st in node.body:
+            tg = st.targets[0] if isinstance(st, ast.Assign) and len(st.targets) == 1 else (st.target if isinstance(st, ast.AnnAssign) else None)
+            if isinstance(tg, ast.Name) and isinstance(st.value, ast.Call) and (dotted(st.value.func) or "").split(".")[-1] == "Param":
+                out.add(tg.id)
+        return out
+    if isinstance(node, (ast.Assign, ast.AnnAssign)) and isinstance(node.value, ast.Name) and depth < 3:
+        return _paramclass_fields(repo, rel, node.value.id, depth + 1)
+    if node is None and depth < 3:
+        for cand in ([rel.rsplit("/", 1)[0] + "/pdk_data.py"] if not rel.endswith("pdk_data.py") else []) + ([F_PRIMS] if rel != F_PRIMS else []):
+            got = _paramclass_fields(repo, cand, name, depth + 1)
+            if got is not None:
+                return got
+    return None
+
+
+def param_keywords_are_fields(repo: Repo, R, m: pt.PdkModel):
+    """A device's parameter object is built from keywords the parameter class declares: a parameter class silently drops a
+    keyword it does not know, so a misnamed one loses the value (the class default is exported instead)."""
+    rule = "C15.3-selection-well-formed"
+    w = m.walker
+    n = 0
+    for meth, f in sorted(w.methods.items()):
+        for c in au.calls_in(f.node):
+            if not isinstance(c.func, ast.Name) or not c.keywords or any(k.arg is None for k in c.keywords):
+                continue
+            fields = _paramclass_fields(repo, f.file.rel, c.func.id)
+            if fields is None:
+                continue
+            n += 1
+            unknown = sorted(k.arg for k in c.keywords if k.arg not in fields)
+            R.check(not unknown, rule, f"pdks/{m.name}::{meth}::{c.func.id}-keywords", f.at(c),
+                    f"{m.name}.{meth}: `{c.func.id}(..)` is given {sorted(k.arg for k in c.keywords)}; the class declares {sorted(fields)}" + (f" — UNKNOWN {unknown} (dropped without an error)" if unknown else ""),
+                    why="the multiplier of a varactor is passed under the capacitor's keyword: it is ignored and every varactor is compiled with the default multiplier")
+    if n < 3:
+        raise AnalysisError(f"anchor-vanished: {m.name}: only {n} parameter-class constructions found in the walker (confirmed by reading: at least 3)")
+    # sizes that depend on both dimensions use both
+    for meth, f in sorted(w.methods.items()):
+        for c in au.calls_in(f.node):
+            for k in c.keywords:
+                if k.arg not in ("area", "pj"):
+                    continue
+                v = shared.prov(f.node, k.value)
+                dims = {("w" if (isinstance(x, ast.Name) and x.id == "w") or (isinstance(x, ast.Attribute) and x.attr == "w") else "l") for x in ast.walk(v)
+                        if (isinstance(x, ast.Name) and x.id in ("w", "l")) or (isinstance(x, ast.Attribute) and x.attr in ("w", "l"))}
+                R.check(dims == {"w", "l"}, rule, f"pdks/{m.name}::{meth}::{k.arg}-both-dimensions", f.at(c),
+                        f"{m.name}.{meth}: `{k.arg}={ast.unparse(v)[:60]}` is computed from " + " and ".join(sorted(dims) or ["neither dimension"]) + " (an area / a perimeter depends on width and length)",
+                        why="the junction perimeter of a diode is computed from the width twice: wrong for every non-square device, silently")
 
 
 def ambiguity_guard_from_two(repo: Repo, R, m: pt.PdkModel):
